@@ -138,6 +138,31 @@ def pPlanCfg : P PlanCfg := do
   let mtime ← pInt
   pure { packager, umask, noGlob, mtime }
 
+/-- a planned entry as printed by `showContent` (always 10 tokens) -/
+def pContentOut : P Content := do
+  let src ← pBytes
+  let dst ← pBytes
+  let type ← pBytes
+  let packager ← pBytes
+  let has ← pBool
+  let fi ← pFileInfo
+  pure { src, dst, type, packager, info := if has then some fi else none }
+
+def errClassOfName (s : String) : Option ErrClass :=
+  [ErrClass.collision, .notExist, .globNoMatch, .globFailed, .relErr, .invalidType, .walkErr].find? (·.name == s)
+
+def pPlanResult : P (Except ErrClass (List Content)) := do
+  match (← tok) with
+  | "err" =>
+    let n ← tok
+    match errClassOfName n with
+    | some e => pure (.error e)
+    | none => throw s!"unknown error class {n}"
+  | "ok" => do
+    let l ← pList pContentOut
+    pure (.ok l)
+  | t => throw s!"bad result tag {t}"
+
 def showContent (c : Content) : String :=
   let fi := c.info.getD {}
   s!"{hex c.src} {hex c.dst} {hex c.type} {hex c.packager} {if c.info.isSome then 1 else 0} {hex fi.owner} {hex fi.group} {fi.mode} {fi.mtime} {fi.size}"
